@@ -13,7 +13,7 @@
 
    The domain (decidable, FetchCreateFacts.step_good): every step is child::name-test with attribute = 'literal'
    predicates joined by `and` / stacked, every prefix declared and not empty, the required attribute values
-   non-contradictory (each is still there after all have been set), none of them named `xmlns` or in the xmlns namespace.  The context node is a tag node of the tree
+   non-contradictory (each is still there after all have been set).  The context node is a tag node of the tree
    (position 0 :: q).  No default-namespace guard, no matching-root guard, no guard on the tree. *)
 From Delb.Base Require Import PyStr.
 From Delb.Tree Require Import ATree ITree.
@@ -56,11 +56,10 @@ Theorem C15_minimal : forall vis root m ab ss q t0 t' p,
 Proof. exact foc_minimal. Qed.
 Print Assumptions C15_minimal.
 
-(* every exception leaves the tree unchanged: for EVERY expression (accepted or not) whose attribute predicates name no
-   reserved attribute (`xmlns`, or one in the namespace of declarations: open finding, C15_reserved_name_refuted), both
-   mappings, every filter; the context node is a node of the tree *)
+(* every exception leaves the tree unchanged: for EVERY expression (accepted or not), both mappings, every filter;
+   the context node is a node of the tree *)
 Theorem C15_fault_unchanged : forall vis root me mc e q t0 t' f,
-  no_reserved mc e = true -> subtree root q = Some t0 -> foc vis root me mc e (0 :: q) = FocFault t' f -> t' = root.
+  subtree root q = Some t0 -> foc vis root me mc e (0 :: q) = FocFault t' f -> t' = root.
 Proof. exact foc_fault_unchanged. Qed.
 Print Assumptions C15_fault_unchanged.
 
@@ -133,11 +132,9 @@ Example C15_ambient_filter_fixed :
              content t' = content f_vis_after.
 Proof. eexists. split; vm_compute; reflexivity. Qed.
 
-(* ---- open finding C15-reserved-attribute-name: the name of an attribute a predicate requires is validated only when
-   it is assigned to the new element, after earlier missing steps were created: b/a[@xmlns='u'] on <r/> raises
-   ValueError and leaves <r><b/></r> *)
-Theorem C15_reserved_name_refuted : no_reserved f_res_me f_res_expr = false /\
-  exists t', foc default_vis f_res_tree f_res_me f_res_me f_res_expr [0%nat] = FocFault t' (FRejected ValueError) /\
-             content t' = content f_res_after /\ content t' <> content f_res_tree.
-Proof. split; [vm_compute; reflexivity|]. eexists. split; [vm_compute; reflexivity|]. split; [vm_compute; reflexivity|].
-  vm_compute. discriminate. Qed.
+(* ---- regression example for C15-reserved-attribute-name (675c8b0): the name of an attribute a predicate requires is
+   validated before anything is created: b/a[@xmlns='u'] on <r/> raises ValueError and leaves <r/> *)
+Example C15_reserved_name_fixed :
+  foc default_vis f_res_tree f_res_me f_res_me f_res_expr [0%nat] = FocFault f_res_tree (FRejected ValueError) /\
+  content f_res_after = content f_res_tree.
+Proof. split; vm_compute; reflexivity. Qed.
